@@ -133,7 +133,21 @@ FIXED += [
     ("C11", "faf3d4b", "the documented root option `regexp` was rejected (only its synonym `rx` was recognised after lexing)", []),
 ]
 
+_LINK_TREE = {"real": {"t": "d", "ch": {"f.txt": {"t": "f", "c": ""}}}, "build": {"t": "l", "to": "real"}, "lnk": {"t": "l", "to": "real"},
+              "out": {"t": "d", "ch": {"x": {"t": "f", "c": ""}}}, "keep.txt": {"t": "f", "c": ""}}
+_NEG_TREE2 = {"a.log": {"t": "f", "c": ""}, "sub": {"t": "d", "ch": {"a.log": {"t": "f", "c": ""}, "b.log": {"t": "f", "c": ""}}}}
+
 OPEN = [
+    {"id": "K06", "property": "C20", "signature": "C20/git/over-ignore/path-negation-after-basename-wildcard",
+     "what": "gitignore `?.log` (or `a*`) followed by `!sub/a.log`: git re-includes sub/a.log, fselect omits it - while parsing the "
+             "file libgit2 (does_negate_rule) keeps a negation only if an earlier pattern of the same file wild-matches the negated "
+             "TEXT, and `?.log` does not match the text `sub/a.log` (`*.log` does, and works); not repairable inside fselect",
+     "pinned_case": {"tree": _NEG_TREE2, "tool": "git", "lines": ["?.log", "!sub/a.log"], "root": "dot", "sub": None, "switch": "option", "mode": ""}},
+    {"id": "K05", "property": "C20", "signature": "C20/git/over-ignore/dir-pattern-hides-link-to-directory",
+     "what": "gitignore `build/` (a directory-only pattern) and a symbolic link called `build` that leads to a directory: for git a "
+             "link is no directory (lstat) and stays, fselect omits it - libgit2's is_path_ignored decides with stat() whether the "
+             "path is a directory and its API takes no flag to say otherwise; hg and docker (fselect's own matchers) are right",
+     "pinned_case": {"tree": _LINK_TREE, "tool": "git", "lines": ["build/", "out/"], "root": "dot", "sub": None, "switch": "option", "mode": ""}},
     {"id": "K04", "property": "C19", "signature": "C19/rows/member/same-name-collapsed",
      "what": "a zip archive with two members of the same name (`same.txt` 5 bytes, `other.txt`, `same.txt` 8 bytes; `unzip -l` lists "
              "three): fselect reports `same.txt` once - the zip crate keeps the members of an archive in a map keyed by their name, "
